@@ -10,7 +10,7 @@ CFG = cfg('C09', refine=['Refine_wire'], extract='Ex_C09', driver='c09',
 
 TEXT = ('Rocq theorems (Props/C09.v, closed under the global context) for every codec over its whole domain: new-format length round trip '
         'and RFC-value and shortest-form for all n < 2^32 and all octet strings, partial-length reassembly by induction over an unbounded '
-        'chunk list, old-format header never-narrow, MPI round trip / exact bit count / RFC value for all v, time, all 256 counts, subpacket '
+        'chunk list, old-format header never-narrow and, in the decode direction, tag / width / value equal to RFC 4880 4.2.1 for every first octet and every input (256-octet sweep lifted), MPI round trip / exact bit count / RFC value for all v, time, all 256 counts, subpacket '
         'headers. Tie: translator (Gen/ regenerated from source, Refine_wire.v) + exhaustive/randomised correspondence of the extracted model '
         'and direct RFC oracles on the implementation.',
         'DESIGN.md 5 C09',
